@@ -176,12 +176,14 @@ HARNESSES = [
          include_dirs=["bin/gensquashfs/src"], malloc_fail=True, flags=["--memory-leak-check"],
          timeout=900, fp={"*": "env_never"},
          cases=[dict(id="%s_len%d" % (nm, n), defines={"PART": part, "LEN": n, "__NO_CTYPE": None},
-                     unwind=max(n + 3, 17 if part == 2 else 0), tier="quick")
+                     unwind=max(n + 3, 17 if part == 2 else 0), tier="quick",
+                     **({"unwindset": ["decode_flags.1:4"]} if part == 2 else {}))
                 for part, nm in ((0, "priority"), (1, "filename"), (2, "flags")) for n in (3, 5)
                 if not (part == 2 and n == 3)] +
-               [dict(id="flags_len3", defines={"PART": 2, "LEN": 3, "__NO_CTYPE": None}, unwind=17, tier="thorough")] +
+               [dict(id="flags_len3", defines={"PART": 2, "LEN": 3, "__NO_CTYPE": None}, unwind=17,
+                     unwindset=["decode_flags.1:4"], tier="thorough")] +
                [dict(id="flags_kw%d" % k, defines={"PART": 2, "KW": k, "__NO_CTYPE": None}, unwind=27, tier="quick",
-                     label="bounded(one keyword)") for k in range(6)] +
+                     unwindset=["decode_flags.1:3"], label="bounded(one keyword)") for k in range(6)] +
                [dict(id="%s_len%d" % (nm, 8), defines={"PART": part, "LEN": 8, "__NO_CTYPE": None},
                      unwind=max(11, 17 if part == 2 else 0), tier="thorough", label="bounded(line <= 8 bytes)")
                 for part, nm in ((0, "priority"), (1, "filename"))]),
